@@ -1,4 +1,18 @@
 TEXTS = {
+    "C07": {
+        "text": "Machine-checked Lean 4 theorem C07_holds: for every wiring whose R::refresh calls stopped() before "
+                "started() and aborts the timers registered so far, every run of the actor model is accepted by "
+                "monC07: default strategy restarts the same value, recreate-from-default gives started() to a "
+                "fresh Default value, a non-restartable spawn never starts twice, and no timer registered by a "
+                "previous incarnation fires or re-arms once the new incarnation has started (invariant: timers of "
+                "earlier incarnations are dead, dead timers never come back). The refresh facts are re-extracted "
+                "from restart_strategy.rs on every run; the negation is proved for the no-abort wiring by a witness.",
+        "design_ref": "DESIGN.md §5 C07, §8 D3",
+        "note": "Partial: the order clause (monC07o) and 'started error during restart terminates as failed' "
+                "(covered by C03's monitor) are trace-checked. Trusted: Lean kernel + axioms; timer model "
+                "(spawned/sleeping/sending/dead/ended) validated by executor-level arm/end events.",
+        "technique": "Lean 4 proof (dead-timer monotonicity + phase simulation) + regenerated wiring + checked trace correspondence",
+    },
     "C03": {
         "text": "Machine-checked Lean 4 theorem C03_holds (no wiring hypothesis): the C03 monitor state is a function "
                 "of the model's loop phase, so every run of the actor model (plain and stream-attached loops, all "
@@ -63,6 +77,6 @@ TEXTS = {
 _PENDING = "check under construction in this round: model + theorem not yet wired into ./check (see DESIGN.md build order); not claimed until its three obligations run end to end"
 NOT_APPLICABLE = [
     {"property_id": p, "reason": _PENDING}
-    for p in ["C01", "C02", "C04", "C05", "C06", "C07", "C08", "C09", "C10", "C11", "C13",
+    for p in ["C01", "C02", "C04", "C05", "C06", "C08", "C09", "C10", "C11", "C13",
               "C16", "C17", "C18", "C19"]
 ]
